@@ -4,7 +4,7 @@ from checks import proc_common as pc
 ID = "C11"
 LEVEL = "proof"
 MODULE = "NrDaemon.Props.C11"
-PREFIX = ('C11', 'C01 proc: accepted data was neither')
+PREFIX = ('C11', 'C01 proc: accepted data was neither', 'C01 proc: the final flush', 'C01 proc: more was acknowledged')
 RULE = ("engine proc: the real Processor in lock-step (trackProgress) with a scripted collector client in which every request parks "
         "until answered; histories of 1-3 applications: transactions (real flatbuffers through processBinary/AggregateInto), harvest "
         "triggers with every mask (all, default data, single and combined event categories), replies in any order relative to later "
